@@ -8,6 +8,7 @@ import (
 	"path/filepath"
 	"runtime"
 	"strconv"
+	"strings"
 	"sync"
 	"time"
 
@@ -108,6 +109,27 @@ func runParent(prop string) int {
 	start := time.Now()
 	t := tier()
 	seed := envInt("VERIF_SEED", 1)
+	total := h.NewResult(prop)
+	parts := []*h.CheckDef{def}
+	if len(def.Parts) > 0 {
+		parts = nil
+		for _, id := range def.Parts {
+			if d := h.Checks[id]; d != nil {
+				parts = append(parts, d)
+			}
+		}
+	}
+	for _, d := range parts {
+		runJobs(d, prop, t, seed, total)
+	}
+	if def.Post != nil {
+		def.Post(total)
+	}
+	return h.Conclude(verifDir(), total, t, seed, def.Level, def.Rule, def.Assumptions, time.Since(start).Seconds(), def.MinEval, def.MinDistinct, prop)
+}
+
+// runJobs runs all cases of one (part of a) check in supervised worker processes and merges their results into total.
+func runJobs(def *h.CheckDef, prop, t string, seed int64, total *h.WorkerResult) {
 	n := def.Quick
 	if t == "thorough" {
 		n = def.Thorough
@@ -125,23 +147,26 @@ func runParent(prop string) int {
 	if workers > n {
 		workers = n
 	}
-	tmp, err := os.MkdirTemp("/dev/shm", "vchk-"+prop+"-")
+	tmp, err := os.MkdirTemp("/dev/shm", "vchk-"+def.ID+"-")
 	if err != nil {
-		tmp, err = os.MkdirTemp("", "vchk-"+prop+"-")
+		tmp, err = os.MkdirTemp("", "vchk-"+def.ID+"-")
 		if err != nil {
 			fmt.Fprintln(os.Stderr, err)
-			return 2
+			total.Inconcl = append(total.Inconcl, "no scratch directory")
+			return
 		}
 	}
 	defer os.RemoveAll(tmp)
 	self, _ := os.Executable()
 	if def.Binary != "" {
 		self = filepath.Join(filepath.Dir(self), def.Binary)
+		if _, err := os.Stat(self); err != nil {
+			total.Inconcl = append(total.Inconcl, "worker binary "+def.Binary+" is not built: part "+def.ID+" skipped")
+			return
+		}
 	}
-	total := h.NewResult(prop)
 	var mu sync.Mutex
 	var wg sync.WaitGroup
-	// batches: contiguous index ranges, several per worker so that a dead child loses little
 	batch := def.Batch
 	if batch <= 0 {
 		batch = 1 + n/(workers*3)
@@ -169,9 +194,11 @@ func runParent(prop string) int {
 				logf := filepath.Join(tmp, fmt.Sprintf("log-%d-%d.txt", j.from, j.to))
 				wtmp := filepath.Join(tmp, fmt.Sprintf("w-%d-%d", j.from, j.to))
 				_ = os.MkdirAll(wtmp, 0o755)
-				cmd := exec.Command("timeout", "-s", "QUIT", fmt.Sprintf("%d", int(watchdog.Seconds())), self, "worker", prop, strconv.Itoa(j.from), strconv.Itoa(j.to), out)
+				cmd := exec.Command("timeout", "-s", "QUIT", fmt.Sprintf("%d", int(watchdog.Seconds())), self, "worker", def.ID, strconv.Itoa(j.from), strconv.Itoa(j.to), out)
 				cmd.Env = append(os.Environ(), "VERIF_TMP="+wtmp, "VERIF_TIER="+t, fmt.Sprintf("VERIF_SEED=%d", seed), "VERIF_DIR="+verifDir())
-				cmd.Env = append(cmd.Env, def.Env...)
+				for _, e := range def.Env {
+					cmd.Env = append(cmd.Env, strings.ReplaceAll(e, "{TMP}", wtmp))
+				}
 				lf, _ := os.Create(logf)
 				cmd.Stdout = lf
 				cmd.Stderr = lf
@@ -180,27 +207,27 @@ func runParent(prop string) int {
 				r, lerr := h.LoadResult(out)
 				mu.Lock()
 				if r != nil {
+					r.Property = prop
 					total.Merge(r)
 				}
 				if err != nil || lerr != nil {
-					// the child died or was stopped by the watchdog: attribute it
-					tail := h.TailFile(logf, 4000)
+					tail := h.TailFile(logf, 6000)
 					code := -1
 					if ee, ok := err.(*exec.ExitError); ok {
 						code = ee.ExitCode()
 					}
 					if code == 124 || code == 131 || code == 137 {
-						total.Inconcl = append(total.Inconcl, fmt.Sprintf("watchdog fired on cases %d..%d (exit %d); last case: %s", j.from, j.to, code, h.LastCase(logf)))
-						keep := filepath.Join(verifDir(), "replays", fmt.Sprintf("%s-%d-watchdog-%d.log", prop, seed, j.from))
+						total.Inconcl = append(total.Inconcl, fmt.Sprintf("watchdog fired on %s cases %d..%d (exit %d); last case: %s", def.ID, j.from, j.to, code, h.LastCase(logf)))
+						keep := filepath.Join(verifDir(), "replays", fmt.Sprintf("%s-%d-watchdog-%d.log", def.ID, seed, j.from))
 						_ = os.MkdirAll(filepath.Dir(keep), 0o755)
 						_ = os.WriteFile(keep, []byte(tail), 0o644)
 					} else if def.OnChildDeath != nil {
 						def.OnChildDeath(total, j.from, j.to, code, tail, logf)
 					} else {
-						keep := filepath.Join(verifDir(), "replays", fmt.Sprintf("%s-%d-died-%d.log", prop, seed, j.from))
+						keep := filepath.Join(verifDir(), "replays", fmt.Sprintf("%s-%d-died-%d.log", def.ID, seed, j.from))
 						_ = os.MkdirAll(filepath.Dir(keep), 0o755)
 						_ = os.WriteFile(keep, []byte(tail), 0o644)
-						total.Violations = append(total.Violations, h.ReportedViol{Violation: h.Violation{Property: "C07", Rule: "process-died", Site: h.FatalSite(tail), Detail: fmt.Sprintf("worker for cases %d..%d exited with %d; last case %s", j.from, j.to, code, h.LastCase(logf)), TxIndex: -1}, Replay: keep})
+						total.Violations = append(total.Violations, h.ReportedViol{Violation: h.Violation{Property: "C07", Rule: "process-died", Site: h.FatalSite(tail), Detail: fmt.Sprintf("worker for %s cases %d..%d exited with %d; last case %s", def.ID, j.from, j.to, code, h.LastCase(logf)), TxIndex: -1}, Replay: keep})
 					}
 				}
 				mu.Unlock()
@@ -209,8 +236,4 @@ func runParent(prop string) int {
 		}(wi)
 	}
 	wg.Wait()
-	if def.Post != nil {
-		def.Post(total)
-	}
-	return h.Conclude(verifDir(), total, t, seed, def.Level, def.Rule, def.Assumptions, time.Since(start).Seconds(), def.MinEval, def.MinDistinct, prop)
 }
